@@ -49,7 +49,7 @@ def variance(EpsE, x):
     return fs._sum([fs._sum([EpsE[i][j] for i in range(m)]) * x[j] * x[j] for j in range(n)])
 
 
-def minimize_case(M, m, n, rows, batch, kkind, bkind, epskind, l1kind, via="function", lbkind="pos", far=False):
+def minimize_case(M, m, n, rows, batch, kkind, bkind, epskind, l1kind, via="function", lbkind="pos", far=False, norm_kind=None):
     from dreye.api.optimize.lsq_linear import lsq_linear_minimize
     A, K, base, lb, ub, lbl, ubl = fs.mk_system(M, m, n, kkind, bkind, lbkind, "fin")
     def _b_sample(r, s):
@@ -83,13 +83,20 @@ def minimize_case(M, m, n, rows, batch, kkind, bkind, epskind, l1kind, via="func
             M.assume(v >= 0)  # a requested total intensity is non-negative (with lb >= 0 the code declares it so)
         l1_eps = M.real("l1eps", (), sample=lambda r, s: r.uniform(0.3, 0.6))
         M.assume(l1_eps >= 0)
+    normv = None
+    if norm_kind is not None:
+        # the allowed error is given by the caller (`norm`, one number for all samples or one per sample): the first stage is skipped
+        normv = M.real("norm", () if norm_kind == "scalar" else (rows,), sample=lambda r, s: r.uniform(0.2, 0.6, size=s) if s else r.uniform(0.2, 0.6))
+        for v in (np.asarray(normv).ravel() if np.ndim(normv) else [normv]):
+            M.assume(v >= 0)
+    two_stage = norm_kind is None
     xc = M.real("xc", (rows, n), sample=lambda r, s: r.uniform(0.3, 1.0, size=s))   # competitor for stage 2
     xc1 = M.real("xc1", (rows, n), sample=lambda r, s: r.uniform(0.3, 1.0, size=s))  # competitor for stage 1
     symcp.reset()
     Earg = {"default": None, "hetero": "heteroscedastic", "explicit": Eps}[epskind]
     if via == "function":
         X, Bp, Bvar = lsq_linear_minimize(A, B, Earg, lb=lb, ub=ub, W=W, K=K, baseline=base, l2_eps=l2_eps, L1=L1, l1_eps=l1_eps,
-                                          batch_size=batch, return_pred=True)
+                                          batch_size=batch, return_pred=True, **({} if two_stage else dict(norm=normv)))
     else:
         from dreye.api.estimator import ReceptorEstimator
         kw = {}
@@ -122,12 +129,12 @@ def minimize_case(M, m, n, rows, batch, kkind, bkind, epskind, l1kind, via="func
     n_solves = -(-rows // bs)
     solves = list(symcp.SOLVES)
     if M.symbolic:
-        goals["number of solves = 2*ceil(n/batch) (ordinary fit, then variance minimisation)"] = len(solves) == 2 * n_solves
+        goals["number of solves = 2*ceil(n/batch) (ordinary fit, then variance minimisation)"] = len(solves) == (2 if two_stage else 1) * n_solves
         if rows % bs:
             M.tag("padded-last-batch")
         if bs > rows:
             M.tag("batch>n")
-    ok_struct = M.symbolic and len(solves) == 2 * n_solves
+    ok_struct = M.symbolic and len(solves) == (2 if two_stage else 1) * n_solves
     feas_rows = {}
     for i in range(rows):
         w = fs.weights(W, i, m)
@@ -145,14 +152,17 @@ def minimize_case(M, m, n, rows, batch, kkind, bkind, epskind, l1kind, via="func
             return M.conj(M.le(sx, l1i + l1_eps), M.le(l1i - l1_eps, sx))
         if ok_struct:
             k, r = divmod(i, bs)
-            rec1, rec2 = solves[k], solves[n_solves + k]
+            rec1, rec2 = solves[k], solves[(n_solves if two_stage else 0) + k]
             v1 = rec1["problem"].variables()[0]; v2 = rec2["problem"].variables()[0]
-            x1 = list(np.asarray(rec1["xstar"][v1]).reshape(-1)[r * n:(r + 1) * n])  # ordinary fit of this row
-            f_1 = fs.sq_error(Aeff, beff, w, bi, x1)
-            inst1, _, _ = symcp.optimality_instance(rec1, fs.row_block_alt(rec1, v1, r, n, c1))
-            goals[f"row{i}: first stage is the ordinary bounded weighted least-squares fit"] = (
-                M.implies(fs.in_bounds(M, c1, lbl, ubl), M.le(f_1, fs.sq_error(Aeff, beff, w, bi, c1))), [inst1])
-            e1 = _sqrt(M, f_1)
+            if two_stage:
+                x1 = list(np.asarray(rec1["xstar"][v1]).reshape(-1)[r * n:(r + 1) * n])  # ordinary fit of this row
+                f_1 = fs.sq_error(Aeff, beff, w, bi, x1)
+                inst1, _, _ = symcp.optimality_instance(rec1, fs.row_block_alt(rec1, v1, r, n, c1))
+                goals[f"row{i}: first stage is the ordinary bounded weighted least-squares fit"] = (
+                    M.implies(fs.in_bounds(M, c1, lbl, ubl), M.le(f_1, fs.sq_error(Aeff, beff, w, bi, c1))), [inst1])
+                e1 = _sqrt(M, f_1)
+            else:
+                e1 = normv[i] if np.ndim(normv) else normv  # the caller's error allowance for this sample
             blk = np.asarray(rec2["xstar"][v2]).reshape(-1)[r * n:(r + 1) * n]
             goals[f"row{i}: result row is its own block of the stacked solution"] = (len(blk) == n) and M.eq(X[i], blk)
             goals[f"row{i}: bounds respected"] = fs.in_bounds(M, xi, lbl, ubl)
@@ -163,7 +173,7 @@ def minimize_case(M, m, n, rows, batch, kkind, bkind, epskind, l1kind, via="func
             c_feas = M.conj(fs.in_bounds(M, ci, lbl, ubl), M.le(_sqrt(M, fs.sq_error(Aeff, beff, w, bi, ci)), l2_eps + e1), l1_ok(ci))
             inst2, _, cons_alt = symcp.optimality_instance(rec2, fs.row_block_alt(rec2, v2, r, n, ci))
             goals[f"row{i}: minimal summed variance among fits of that quality"] = (M.implies(c_feas, M.le(variance(EpsE, xi), variance(EpsE, ci))), [inst2])
-            if l1i is None:
+            if l1i is None and two_stage:
                 inst3, _, _ = symcp.optimality_instance(rec2, fs.row_block_alt(rec2, v2, r, n, x1))
                 goals[f"row{i}: variance <= variance of the ordinary fit"] = (M.le(variance(EpsE, xi), variance(EpsE, x1)), [inst3])
             feas_rows.setdefault(k, []).append((r, ci, c_feas))
@@ -172,6 +182,8 @@ def minimize_case(M, m, n, rows, batch, kkind, bkind, epskind, l1kind, via="func
             goals[f"row{i}: bounds respected"] = bool(np.all(np.array(xi) >= np.array(lbl) - 0.01 * rng_) and np.all(np.array(xi) <= np.array(ubl) + 0.01 * rng_))
             xo = fs.scipy_bvls(Aeff, beff, w, bi, lbl, ubl)
             e_o = float(np.sqrt(fs.sq_error(Aeff, beff, w, bi, list(xo))))
+            if not two_stage:
+                e_o = float(normv[i] if np.ndim(normv) else normv)
             goals[f"row{i}: capture error <= best achievable error + l2_eps"] = bool(np.sqrt(float(f_x)) <= e_o + float(l2_eps) + 2e-2 * max(1.0, float(np.max(w))))
             if l1i is not None:
                 goals[f"row{i}: total intensity within l1_eps of the request"] = bool(abs(sum(xi) - float(l1i)) <= float(l1_eps) + 0.02)
@@ -179,7 +191,7 @@ def minimize_case(M, m, n, rows, batch, kkind, bkind, epskind, l1kind, via="func
                 (l1i is None or abs(sum(ci) - float(l1i)) <= float(l1_eps) - 1e-3)
             if c_feas:
                 goals[f"row{i}: minimal summed variance among fits of that quality"] = bool(float(variance(EpsE, xi)) <= float(variance(EpsE, ci)) * (1 + 2e-2) + 1e-3)
-            if l1i is None:
+            if l1i is None and two_stage:
                 goals[f"row{i}: variance <= variance of the ordinary fit"] = bool(float(variance(EpsE, xi)) <= float(variance(EpsE, list(xo))) * (1 + 5e-2) + 1e-3)
                 # a second competitor that is always available: the ordinary fit shrunk towards the lower bounds as far as the error budget allows
                 xo_ = np.array(xo, dtype=float); lo_ = np.array(lbl, dtype=float)
@@ -198,7 +210,7 @@ def minimize_case(M, m, n, rows, batch, kkind, bkind, epskind, l1kind, via="func
         # the stacked second-stage problem must be feasible whenever every row's documented problem is (checked without the stub's own
         # assumption); padded rows get the witness x = lb
         for k, lst in feas_rows.items():
-            rec2 = solves[n_solves + k]
+            rec2 = solves[(n_solves if two_stage else 0) + k]
             v2 = rec2["problem"].variables()[0]
             alt = np.array(rec2["xstar"][v2]).copy().reshape(-1)
             for r in range(bs):
@@ -230,6 +242,9 @@ def cases(tier, seed):
     add("2x2 K=vec Eps=explicit rows=2 batch=2", m=2, n=2, rows=2, batch=2, kkind="vec", bkind="vec", epskind="explicit", l1kind="none")
     add("estimator.minimize_variance 2x3 K=vec Eps=explicit", m=2, n=3, rows=1, batch=1, kkind="vec", bkind="vec", epskind="explicit", l1kind="none", via="estimator")
     add("estimator.minimize_variance(Epsilon=...) 2x3 K=vec", m=2, n=3, rows=1, batch=1, kkind="vec", bkind="vec", epskind="explicit", l1kind="none", via="estimator_kw")
+    for nk in ("scalar", "vec"):
+        add(f"2x3 K=vec Eps=explicit rows=2, error allowance given by the caller (norm: {nk})", m=2, n=3, rows=2, batch=1, kkind="vec", bkind="vec", epskind="explicit", l1kind="none", norm_kind=nk)
+    add("2x2 K=vec Eps=explicit rows=2 batch=2, error allowance given by the caller (norm: scalar)", m=2, n=2, rows=2, batch=2, kkind="vec", bkind="vec", epskind="explicit", l1kind="none", norm_kind="scalar")
     add("estimator.minimize_variance 2x3 K=mat Eps=default", m=2, n=3, rows=1, batch=1, kkind="mat", bkind="vec", epskind="default", l1kind="none", via="estimator")
     if big:
         add("3x4 K=vec Eps=explicit L1=none rows=2", m=3, n=4, rows=2, batch=1, kkind="vec", bkind="vec", epskind="explicit", l1kind="none")
